@@ -24,7 +24,7 @@ import (
 func TestVerifC05(t *testing.T) {
 	vfMain(t, vfCheck{
 		ID: "C05", Level: "exploration",
-		Rule:        "seeded operation sequences (length 5..60) over the names {a,b,c,d,d/x,d/y,d/e,d/e/z,l,m,nope} with all 21 listed operations (OpenFile with every access/creation flag combination), so that collisions, missing parents, non-empty directories, dangling and directory symlinks and files-where-directories-are-expected occur; absolute paths and working-directory-relative paths (WithServerWorkingDirectory); privileged and unprivileged callers (the latter with restrictive chmods 000/100/200/300/500/555 on files and directories). Documented differences are encoded: Mkdir has no mode (0755), Create is 0666 before umask 022, RemoveAll errors on a missing path, RealPath is lexical, StatVFS compares the stable fields; the empty path and ill-formed glob patterns are excluded. A class is (operation, outcome category on the os side, path style).",
+		Rule:        "seeded operation sequences (length 5..60) over the names {a,b,c,d,d/x,d/y,d/e,d/e/z,l,m,nope} with all 21 listed operations (OpenFile with every access/creation flag combination), so that collisions, missing parents, non-empty directories, dangling and directory symlinks and files-where-directories-are-expected occur; absolute paths and working-directory-relative paths (WithServerWorkingDirectory; relative names also climb out of the working directory with ..); privileged and unprivileged callers (the latter with restrictive chmods 000/100/200/300/500/555 on files and directories). Documented differences are encoded: Mkdir has no mode (0755), Create is 0666 before umask 022, RemoveAll errors on a missing path, RealPath is lexical, StatVFS compares the stable fields; the empty path and ill-formed glob patterns are excluded. A class is (operation, outcome category on the os side, path style).",
 		Assumptions: []string{"umask 022; half of the units run every call of both sides as root, the other half as uid/gid 65534 (effective ids of all threads switched with AllThreadsSyscall; snapshots and clean-up as root), so that permission outcomes occur", "unprivileged units never give a directory read permission without search permission: package os can still list the names of such a directory (Glob, Walk) while an SFTP listing carries attributes and fails as a whole — a property of the protocol, not an outcome the statement compares", "when os.RemoveAll fails only because its openat-based implementation cannot open the PARENT directory for reading, the reference is the algorithm of the portable implementation in the same package (os/removeall_noat.go) on package os primitives", "go1.25.0's os.RemoveAll leaks an internal errSymlink when a symbolic link cannot be unlinked; it is classified as the permission failure it stands for", "unordered results (ReadDir, Glob, Walk) are compared as multisets; atime and un-set mtimes are not compared"},
 		Units: func(tier vfTier, seed uint64) int {
 			if tier == vfThorough {
@@ -107,9 +107,14 @@ func c05ErrText(err error) (s string) {
 
 var c05Names = []string{"a", "b", "c", "d", "d/x", "d/y", "d/e", "d/e/z", "l", "m", "nope", "nope/q", "a/sub"}
 
-func c05Gen(r *vfRand, n int, unpriv bool) []c05Step {
+func c05Gen(r *vfRand, n int, unpriv, relative bool) []c05Step {
 	var out []c05Step
-	pick := func() string { return vfPick(r, c05Names) }
+	names := c05Names
+	if relative {
+		// working-directory-relative names may climb out of the working directory (it has a parent inside the compared tree)
+		names = append(append([]string(nil), names...), "../s", "../s/t", "d/../../s", "../s", "../wd/a")
+	}
+	pick := func() string { return vfPick(r, names) }
 	ops := []string{"Mkdir", "MkdirAll", "Create", "OpenFile", "Remove", "RemoveDirectory", "RemoveAll", "Rename", "PosixRename", "Link", "Symlink", "ReadLink", "Stat", "Lstat", "Chmod", "Chtimes", "Truncate", "ReadDir", "Glob", "Walk", "RealPath", "StatVFS"}
 	for i := 0; i < n; i++ {
 		s := c05Step{op: ops[r.Intn(len(ops))], p1: pick(), p2: pick()}
@@ -169,7 +174,8 @@ func c05Gen(r *vfRand, n int, unpriv bool) []c05Step {
 }
 
 type c05Side struct {
-	root     string
+	root     string // where the names of a sequence resolve (the server's working directory in the relative style)
+	top      string // the tree that is compared and cleaned up (root, or its parent in the relative style)
 	relative bool
 }
 
@@ -186,7 +192,7 @@ func (s c05Side) arg(rel string) string {
 	return filepath.Join(s.root, rel)
 }
 
-func c05Norm(s c05Side, v string) string { return strings.ReplaceAll(v, s.root, "ROOT") }
+func c05Norm(s c05Side, v string) string { return strings.ReplaceAll(v, s.top, "TOP") }
 
 func c05InfoStr(fi os.FileInfo) string {
 	if fi == nil {
@@ -491,7 +497,7 @@ func c05Sut(c *Client, s c05Side, st c05Step) (string, error) {
 }
 
 func c05Snap(s c05Side) string {
-	t := vfSnapshot(s.root, vfSnapOpts{})
+	t := vfSnapshot(s.top, vfSnapOpts{})
 	var keys []string
 	for k := range t {
 		keys = append(keys, k)
@@ -557,13 +563,18 @@ func c05Run(u *vfUnit) {
 	defer raise()
 	nSeq := 10
 	for si := 0; si < nSeq; si++ {
-		A := c05Side{root: filepath.Join(base, fmt.Sprintf("A%d", si)), relative: relative}
-		B := c05Side{root: filepath.Join(base, fmt.Sprintf("B%d", si)), relative: relative}
+		A := c05Side{top: filepath.Join(base, fmt.Sprintf("A%d", si)), relative: relative}
+		B := c05Side{top: filepath.Join(base, fmt.Sprintf("B%d", si)), relative: relative}
+		A.root, B.root = A.top, B.top
+		if relative {
+			A.root, B.root = filepath.Join(A.top, "wd"), filepath.Join(B.top, "wd")
+		}
 		os.MkdirAll(A.root, 0o755)
 		os.MkdirAll(B.root, 0o755)
 		if unpriv {
-			os.Chown(A.root, 65534, 65534)
-			os.Chown(B.root, 65534, 65534)
+			for _, d := range []string{A.top, B.top, A.root, B.root} {
+				os.Chown(d, 65534, 65534)
+			}
 		}
 		cfg := vfSrvCfg{Kind: vfOS, Alloc: si%2 == 0}
 		if relative {
@@ -574,7 +585,7 @@ func c05Run(u *vfUnit) {
 			u.Inconclusive("connect: %v", err)
 			return
 		}
-		steps := c05Gen(r, 5+r.Intn(56), unpriv)
+		steps := c05Gen(r, 5+r.Intn(56), unpriv, relative)
 		u.Count("sequences", 1)
 		var history []string
 		style := "abs"
@@ -636,9 +647,9 @@ func c05Run(u *vfUnit) {
 		if msg := sess.Close(); msg != "" {
 			u.Violation("session-close", msg, nil)
 		}
-		vfChmodAll(A.root)
-		vfChmodAll(B.root)
-		os.RemoveAll(A.root)
-		os.RemoveAll(B.root)
+		vfChmodAll(A.top)
+		vfChmodAll(B.top)
+		os.RemoveAll(A.top)
+		os.RemoveAll(B.top)
 	}
 }
